@@ -181,6 +181,16 @@ def gen_history(rng, nops, keys, mix):
         ck = cstr(key)
         if k == 'put' and rng.random() < 0.04:      # a put that cannot get its memory: refused, nothing changes
             ops.append('puthuge %s' % hexs(key))
+        elif k == 'put' and rng.random() < 0.06:
+            # the table's own value buffer handed back with a shorter length (records dropped from the end of a stored array)
+            v = rand_val(rng)
+            if len(v) >= 2:
+                n = rng.randrange(1, len(v))
+                ops.append('putpre %s %s %d' % (hexs(key), hexs(v), n))
+                shadow[ck] = v[:n]
+            else:
+                ops.append('put %s %s' % (hexs(key), hexs(v)))
+                shadow[ck] = v
         elif k == 'put':
             v = rand_val(rng)
             ops.append('%s %s %s' % ('putown' if rng.random() < 0.08 else 'put', hexs(key), hexs(v)))
